@@ -5,7 +5,8 @@ From Coq Require Import List Arith Permutation.
 Import ListNotations.
 From Onet Require Node.Dispatch Node.DispatchProofs.
 From Onet Require Import Base.Corr Node.Instance Node.Obs Node.VerifyProofs Node.AggregateProofs
-  Corr.C04 Node.C04CheckProofs Node.Pipeline Node.PipelineProofs Node.PipelineC04Proofs.
+  Corr.C04 Node.C04CheckProofs Node.Pipeline Node.PipelineProofs Node.PipelineC04Proofs
+  Node.Channel Node.ChannelProofs.
 
 (* The property, at the level of TreeNodeInstance.aggregate, for every node
    (any number n >= 1 of children with ids [cs]), every registration table,
@@ -226,3 +227,54 @@ Theorem c04_started_prefix_delivered : forall f t insts tbl n acts st i ci exp,
   received tbl i ci st = exp /\ existsb is_crash (ilog i (p_log st)) = false.
 Proof. exact pipeline_batches. Qed.
 Print Assumptions c04_started_prefix_delivered.
+
+(* ---- channels of any capacity, a reader that is behind ----------------------
+   Node/Channel.v models what lies between a delivery and the protocol reading
+   its channel: the aggregated branch of dispatchChannel BLOCKS in the send, the
+   non-aggregated branch refuses when the channel is full (documented), handlers
+   are called directly; dispatch goroutine and reader interleave arbitrarily. *)
+
+(* For every capacity, every delivery sequence [ds] of an instance and every
+   interleaving: of an aggregated channel type, what has been dispatched is what
+   the protocol has read ++ what sits in the channel ++ the batch being sent --
+   no batch lost, none reordered, however far the reader is behind. *)
+Theorem c04_batches_never_lost : forall cap ds acts st ty,
+  (forall d, In d ds -> is_chan d = true -> d_type d = ty -> d_agg d = true) ->
+  crun false cap (cinit ds) acts = Some st ->
+  chan ty (c_done st) = chan ty (c_read st) ++ c_buf st ty ++ pend ty st /\
+  ds = c_done st ++ c_todo st.
+Proof. exact (fun cap ds acts st ty => batches_never_lost false cap ds acts st ty eq_refl). Qed.
+Print Assumptions c04_batches_never_lost.
+
+(* ... hence once everything is dispatched and the channel drained the protocol
+   has read exactly the batches, in order (one per round by c04_batches). *)
+Theorem c04_all_batches_received : forall cap ds acts st ty,
+  (forall d, In d ds -> is_chan d = true -> d_type d = ty -> d_agg d = true) ->
+  crun false cap (cinit ds) acts = Some st ->
+  c_todo st = [] -> c_pending st = None -> c_buf st ty = [] ->
+  chan ty (c_read st) = chan ty ds.
+Proof. exact (fun cap ds acts st ty => all_batches_received false cap ds acts st ty eq_refl). Qed.
+Print Assumptions c04_all_batches_received.
+
+(* the only deliveries ever refused are non-aggregated ones to a full channel *)
+Theorem c04_only_singles_refused : forall cap ds acts st d,
+  crun false cap (cinit ds) acts = Some st -> In d (c_dropped st) ->
+  is_chan d = true /\ (d_agg d = false \/ false = true).
+Proof. exact (only_singles_refused false). Qed.
+Print Assumptions c04_only_singles_refused.
+
+(* a waiting send is completed by the next read of that channel *)
+Theorem c04_waiting_send_completes : forall ts cap st d,
+  c_pending st = Some d ->
+  exists st', cstep ts cap st (CRead (d_type d)) = Some st' /\ c_pending st' = None.
+Proof. exact waiting_send_completes. Qed.
+Print Assumptions c04_waiting_send_completes.
+
+(* what the blocking send is for: the variant that only TRIES to send loses
+   every batch that finds the channel full (capacity 1, three rounds, one read) *)
+Theorem c04_trysend_loses_batches_refuted :
+  exists cap ds acts st,
+    crun true cap (cinit ds) acts = Some st /\ c_todo st = [] /\ c_pending st = None /\
+    c_buf st 8 = [] /\ chan 8 (c_read st) <> chan 8 ds /\ c_dropped st = [batch 8 2; batch 8 3].
+Proof. exact trysend_loses_batches. Qed.
+Print Assumptions c04_trysend_loses_batches_refuted.
